@@ -1,6 +1,7 @@
 (* C03 -- & | ^ are set algebra on row identity.  Statements only. *)
 From Coq Require Import ZArith NArith List Bool.
 From DM Require Import Spec.Table Spec.Ops Proofs.MergeFacts Proofs.TableFacts.
+From DM Require Import Model.LTable Gen.KCore Model.Core Proofs.CoreRefine.
 Import ListNotations.
 
 (* membership: the result holds exactly the ids of the intersection / union / symmetric difference *)
@@ -52,6 +53,16 @@ Theorem C03_operands_unchanged : forall w o a b j,
   (j < List.length (pool w))%nat -> get (fst (step w (OMerge o a b))) j = get w j.
 Proof. intros w o a b j H. apply step_frame; [exact H|discriminate]. Qed.
 Print Assumptions C03_operands_unchanged.
+
+(* the implementation's merge (Index(set(..)).sorted(), then per column either dict lookups or isin masks +
+   concatenate + argsort/searchsorted) computes exactly the L0 merge on object graphs satisfying inv_b *)
+Theorem C03_l1_merge_refines : forall (w : world) o ta tb a b r,
+  inv_b a = true -> inv_b b = true ->
+  get w ta = Some (abs a) -> get w tb = Some (abs b) ->
+  merge_tables o a b = Some r ->
+  snd (step w (OMerge o ta tb)) = OkNew -> fst (step w (OMerge o ta tb)) = push w (abs r).
+Proof. exact merge_refines. Qed.
+Print Assumptions C03_l1_merge_refines.
 
 Example C03_example : merge_ids MXor [5; 1; 9; 3]%N [3; 4; 5]%N = [1; 4; 9]%N /\ merge_ids MAnd [5; 1; 9; 3]%N [3; 4; 5]%N = [3; 5]%N.
 Proof. vm_compute. split; reflexivity. Qed.
